@@ -953,10 +953,12 @@ fn attribute(n0: &Norm, first: &Mis) -> (String, String) {
     for _pass in 0..4 {
         let mut changed = false;
         let mut still_needed = Vec::new();
-        for s in &needed {
+        // (feature steps are all retried: an option change can make another feature applicable)
+        let retry: Vec<Step> = steps.iter().filter(|s| matches!(s, Step::Feature(_)) || needed.iter().any(|m| format!("{m:?}") == format!("{s:?}"))).copied().collect();
+        for s in &retry {
             let (simplified, blocked) = a.apply(*s);
             changed |= simplified;
-            if blocked {
+            if blocked && !still_needed.iter().any(|m: &Step| format!("{m:?}") == format!("{s:?}")) {
                 still_needed.push(*s);
             }
         }
